@@ -15,7 +15,7 @@
  */
 
 use std::{cmp, thread};
-use std::fs::{self, canonicalize, create_dir_all, read_link, File, Metadata};
+use std::fs::{self, canonicalize, create_dir_all, read_link, File, Metadata, OpenOptions};
 use std::io::ErrorKind;
 use std::path::{Path, PathBuf};
 use std::sync::Arc;
@@ -63,7 +63,19 @@ impl CopyHandle {
             fs::rename(to, backup)?;
         }
 
-        let outfd = File::create(to)?;
+        // Open without truncating, and decide on the opened file
+        // whether it is the source after all: between the check
+        // above and this open another worker may have created a
+        // link to the source at this very path.
+        let outfd = OpenOptions::new().write(true).create(true).truncate(false).open(to)?;
+        {
+            use std::os::unix::fs::MetadataExt;
+            let tmeta = outfd.metadata()?;
+            if tmeta.dev() == metadata.dev() && tmeta.ino() == metadata.ino() {
+                return Err(XcpError::InvalidDestination("Source and destination are the same file.").into());
+            }
+        }
+        outfd.set_len(0)?;
         allocate_file(&outfd, metadata.len())?;
 
         let handle = CopyHandle {
